@@ -11,7 +11,7 @@ namespace Rcgen.Theorems.C11
 open Rcgen Rcgen.Model
 
 def allBackends : List Backend := [.ring, .aws]
-def allKeyTypes : List KeyType := [.ed25519, .p256, .p384, .p521, .rsa]
+def allKeyTypes : List KeyType := [.ed25519, .p256, .p384, .p521, .rsa, .rsaBig]
 def allFormats : List DocFormat := [.pkcs8v1, .pkcs8v2, .sec1, .pkcs1]
 def allDocs : List KeyDoc := allFormats.flatMap (fun f => allKeyTypes.map (fun k => ⟨f, k⟩))
 
@@ -25,7 +25,7 @@ theorem load_roundtrip :
       (let d : KeyDoc := ⟨exportFormat b k, k⟩
        autodetect b d == .ok k.defaultAlg &&
        (publicAlgs b).all (fun a =>
-         a.keyType != k ||
+         !a.fits k ||
          (loadPkcs8With b a d == .ok a && loadDerWith b a d == .ok a))))) = true := by decide
 
 /-- **a loaded key exports PKCS#8, and that export loads again**: for every back end and every
@@ -65,7 +65,7 @@ theorem autodetect_types_correctly :
     the back end (the `panic!("Unknown SignatureAlgorithm")` arms are unreachable from them) -/
 theorem mismatch_is_error :
     allBackends.all (fun b => allDocs.all (fun d => (publicAlgs b).all (fun a =>
-      (a.keyType == d.kty ||
+      (a.fits d.kty ||
         ((match loadPkcs8With b a d with | .err _ => true | _ => false) &&
          (match loadDerWith b a d with | .err _ => true | _ => false))) &&
       loadPkcs8With b a d != .panic && loadDerWith b a d != .panic))) = true := by decide
